@@ -173,6 +173,26 @@ def tlc_mc(pid, module, lib="num_native", workers=8, timeout=1800, heap="8g", cf
     return r
 
 
+def apalache_inductive(pid, module, timeout=900):
+    """Apalache: Init => IndInv (length 0) and IndInv /\ Next => IndInv' (length 1) for spec/<module>.tla, which defines
+    CInit, Init, IndInit (an arbitrary state satisfying IndInv, in assignment form), Next, IndInv.  Returns wall seconds;
+    a counterexample or tool error is Inconclusive (a statement about the model, never a verdict about the code)."""
+    wd = fresh(rundir(pid, "apalache", module))
+    shutil.copy(os.path.join(SPEC, module + ".tla"), wd)
+    t0 = time.time()
+    for init, length in (("Init", "0"), ("IndInit", "1")):
+        cmd = ["timeout", str(timeout), "apalache-mc", "check", "--out-dir=" + os.path.join(wd, "out"), "--cinit=CInit", "--init=" + init,
+               "--inv=IndInv", "--length=" + length, module + ".tla"]
+        p = subprocess.run(cmd, cwd=wd, stdout=subprocess.PIPE, stderr=subprocess.STDOUT, text=True)
+        if p.returncode != 0 or "The outcome is: NoError" not in p.stdout:
+            sys.stdout.write(p.stdout[-3000:])
+            raise Inconclusive("Apalache did not establish the inductive invariant of %s (--init=%s, exit %d)" % (module, init, p.returncode))
+    shutil.rmtree(os.path.join(wd, "out"), ignore_errors=True)
+    wall = time.time() - t0
+    log("Apalache %s: Init => IndInv and IndInv /\\ Next => IndInv' established, %.1fs" % (module, wall))
+    return wall
+
+
 def split_groups(trace_path, key, nshards):
     """split an NDJSON trace into <= nshards files at boundaries where field `key` changes;
     returns [(path, first_line_number_1based, nlines)]"""
